@@ -9,6 +9,7 @@ import (
 	"errors"
 	"fmt"
 	"io/fs"
+	"math"
 	"os"
 	"path"
 	"path/filepath"
@@ -179,6 +180,7 @@ func processFile(filePath string, ctxt *processors.Context, checkOnly bool) erro
 	}
 
 	scanner := bufio.NewScanner(parsedBytes)
+	scanner.Buffer(nil, math.MaxInt)
 	scanner.Split(bufio.ScanLines)
 	lines := []string{}
 
